@@ -116,6 +116,9 @@ var wallValuePrograms = []struct{ src, want string }{
 	{"(try (try (sleep 100000) (catch e :inner)) (catch e2 :outer))", "\u029einner"},
 	{"(do (def risky (fn [] (try (sleep 100000) (catch e :recovered)))) (try [(risky) :after] (catch e2 :outer)))", ""},
 	{"(try (try (spin 0) (catch e :inner) (finally 1)) (catch e2 :outer))", "\u029einner"},
+	// another reader (a helper future of the same evaluation) is already waiting on the future the try body derefs: the
+	// body's own budget still ends its wait, and the handler gets to run
+	{"(do (def slow (future (sleep 100000))) (future (deref slow)) (future (deref slow)) (sleep 20) (try (deref slow) (catch e :caught)))", "\u029ecaught"},
 }
 
 func (e *cancelWallEngine) runValue(idx, afterMs int) string {
@@ -193,6 +196,15 @@ func (e *cancelWallEngine) run(payload string) string {
 	ast, err := lisp.READ(strings.TrimPrefix(wallPrograms[p], "!cancel "), nil, env)
 	if err != nil {
 		return "setup-error"
+	}
+	if strings.Contains(wallPrograms[p], "bgf") || strings.Contains(wallPrograms[p], "bgspin") {
+		// ANOTHER evaluation (no deadline of its own; it ends with the case) is already waiting on the same futures:
+		// a reader must wait for the outcome or for ITS OWN context, never for another reader
+		for _, name := range []string{"bgf", "bgspin"} {
+			w := ls(sy("deref"), sy(name))
+			go func() { lisp.EVAL(setupCtx, w, env) }()
+		}
+		time.Sleep(3 * time.Millisecond)
 	}
 	after := time.Duration(afterMs) * time.Millisecond
 	var ctx context.Context
